@@ -909,6 +909,7 @@ func (r *runner) sentinel() {
 }
 
 func run(c *fw.Ctx) {
+	c.ConcPart() // schedule companion (checks/c08/conc): results must not depend on the interleaving
 	limitMemory()
 	r := &runner{c: c, sigN: map[string]int{}}
 	defer func() {
